@@ -82,6 +82,10 @@ impl DnsConfig {
         }
     }
     pub async fn lookup_host(&self, host: &str, port: u16) -> Result<SocketAddr, Error> {
+        #[cfg(redproxy_verif)]
+        if let Some(r) = crate::verif::dns(host, port, self.family).await {
+            return r;
+        }
         let resolver = self.resolver.as_ref().unwrap();
         let addr = match self.family {
             AddressFamily::V4Only => resolver
